@@ -231,7 +231,7 @@ func expected(sp credgen.Spec, v credgen.View, o credgen.Opts) expect {
 	s := sp.Schema
 	// the credential type as the generator wrote it
 	ty := s.TypeIRI
-	if sp.NoSubjectType {
+	if sp.NoSubjectType || (sp.SubjectTypes != nil && len(sp.SubjectTypes) != 1) {
 		top := sp.TopTypes
 		if top == nil {
 			top = []string{"VerifiableCredential", s.TypeName}
@@ -676,6 +676,13 @@ func (g *gen) buildPool() pool {
 	add(credgen.Spec{Schema: ssAll, Subject: did, Expiration: i64(4102444800)})
 	add(credgen.Spec{Schema: ssAll, Subject: did, NoSubjectType: true})
 	add(credgen.Spec{Schema: ssAll, Omit: []string{"name"}})
+	// credentialSubject.type is an array (not a string): the top-level pair decides; a one-element array compacts to a string
+	add(credgen.Spec{Schema: ssAll, Subject: did, SubjectTypes: []string{ssAll.TypeName, "VerifiableCredential"}})
+	add(credgen.Spec{Schema: ms, Subject: did, SubjectTypes: []string{ms.TypeName, "VerifiableCredential"}, TopTypes: []string{"VerifiableCredential", ms.TypeName, "VerifiablePresentation"}})
+	add(credgen.Spec{Schema: ssAll, SubjectTypes: []string{ssAll.TypeName}})
+	// a subject id that is not a string
+	add(credgen.Spec{Schema: ms, Subject: 12345})
+	add(credgen.Spec{Schema: ms, Subject: true})
 	// a type given as an absolute IRI that no context defines: no attribute is found, the claim is a merklized one
 	add(credgen.Spec{Schema: ssAll, Subject: did, NoSubjectType: true, TopTypes: []string{"VerifiableCredential", "urn:other:type"}})
 	add(credgen.Spec{Schema: ssAll, Subject: did, NoSubjectType: true, TopTypes: []string{"VerifiableCredential", "NoSuchType"}})
